@@ -198,11 +198,11 @@ def case_strategy():
 
 
 FIXED = [
-    {"before": 0, "kind": "conn_close", "after": ["req"], "arrival": "later", "lookahead": 1, "workers": 1},
-    {"before": 0, "kind": "http10", "after": ["req"], "arrival": "later", "lookahead": 2, "workers": 1},
+    {"before": 0, "kind": "conn_close", "after": ["req"], "arrival": "later", "lookahead": 1, "workers": 1, "bound2": True},
+    {"before": 0, "kind": "http10", "after": ["req"], "arrival": "later", "lookahead": 2, "workers": 1, "bound2": True},
     {"before": 1, "kind": "app_exc", "after": ["req", "req"], "arrival": "same", "lookahead": 1, "workers": 2},
     {"before": 0, "kind": "app_short", "after": ["req"], "arrival": "later", "lookahead": 1, "workers": 1, "capacity": 20, "drain": 8},
-    {"before": 0, "kind": "bad_framing", "after": ["req"], "arrival": "later", "lookahead": 0, "workers": 1},
+    {"before": 0, "kind": "bad_framing", "after": ["req"], "arrival": "later", "lookahead": 0, "workers": 1, "bound2": True},
     {"before": 1, "kind": "conn_close", "after": ["partial", "req"], "arrival": "later", "lookahead": 5, "workers": 2},
     {"before": 0, "kind": "app_no_length_10", "after": ["req"], "arrival": "split", "lookahead": 1, "workers": 1},
     {"before": 0, "kind": "oversize", "after": ["req"], "arrival": "same", "lookahead": 2, "workers": 1},
@@ -211,8 +211,11 @@ FIXED = [
     {"before": 1, "kind": "app_exc_mid", "exc": "FileNotFoundError", "lse": False, "after": ["req"], "arrival": "later", "lookahead": 0, "workers": 2},
     {"before": 0, "kind": "app_exc", "exc": "OSError", "lse": False, "after": ["req"], "arrival": "same", "lookahead": 2, "workers": 1},
     {"before": 0, "kind": "te_non11", "version": "1.0", "after": ["req"], "arrival": "same", "lookahead": 1, "workers": 1},
+    {"before": 0, "kind": "app_exc", "exc": "ValueError", "after": ["req"], "arrival": "later", "lookahead": 1, "workers": 1, "bound2": True},
+    {"before": 0, "kind": "app_short", "after": ["req"], "arrival": "later", "lookahead": 1, "workers": 1, "bound2": True},
+    {"before": 0, "kind": "app_exc_mid", "exc": "OSError", "lse": False, "after": ["req"], "arrival": "later", "lookahead": 1, "workers": 1, "bound2": True},
     {"before": 1, "kind": "te_non11", "version": "1.2", "after": ["req", "req"], "arrival": "later", "lookahead": 2, "workers": 2},
-    {"before": 0, "kind": "te_non11", "version": "0.9", "after": ["req"], "arrival": "later", "lookahead": 0, "workers": 1},
+    {"before": 0, "kind": "te_non11", "version": "0.9", "after": ["req"], "arrival": "later", "lookahead": 0, "workers": 1, "bound2": True},
 ]
 
 
